@@ -135,6 +135,28 @@ func visitDeepC(fn *ssa.Function, f func(ssa.Instruction), stack map[*ssa.Functi
 			if h := helperCallee(ins); h != nil {
 				visitDeepC(h, f, stack, ins.(ssa.CallInstruction))
 			}
+			// function literals written in this function (handed to a worker such as forEach(func(x){…})) are part of
+			// its body: what they do is what the function does, possibly several times
+			for _, op := range ins.Operands(nil) {
+				if op == nil || *op == nil {
+					continue
+				}
+				var lit *ssa.Function
+				switch x := (*op).(type) {
+				case *ssa.MakeClosure:
+					lit, _ = x.Fn.(*ssa.Function)
+				case *ssa.Function:
+					if x.Parent() == fn {
+						lit = x
+					}
+				}
+				if _, isMC := ins.(*ssa.MakeClosure); isMC {
+					continue // visited where the closure value is used
+				}
+				if lit != nil && lit.Parent() == fn && lit.Blocks != nil {
+					visitDeepC(lit, f, stack, nil)
+				}
+			}
 		}
 	}
 }
